@@ -55,9 +55,9 @@ def _task(X):
     # the header path itself is analysed with 0..2 option pairs by C11-R2; here one abstract pair suffices
     H = ReaderHarness(P, R, havoc=True, stub_content=False, unknown_iters=_CTX[6])
     H.extra_stubs = stubs
-    preds = [p for p in SPEC_IDS if X in table.get(p, ())]
-    row = frozenset(['diffx']) if X == 'diffx' else frozenset(table[preds[0]])
-    paths, exceeded = H.paths([Script(X, options='unknown')], inject=(loop, lambda I: {var: row}), max_paths=30000)
+    from sa.props.reader_rules import history_script
+    pre, nh = history_script(table, X)
+    paths, exceeded = H.paths(pre + [Script(X, options='unknown')], max_paths=30000, det_prefix=nh)
     bad, ok = _collect(paths, R, lambda exc: exc_name(exc) == 'DiffXParseError')
     explicit = set()
     for p in paths:
@@ -66,7 +66,7 @@ def _task(X):
                 explicit.add((ev.fn, ev.loc, exc_name(ev.data['exc'])))
     return {'id': X, 'paths': len(paths), 'exceeded': exceeded,
             'bad': {k: v for k, v in bad.items()}, 'ok': sorted(ok), 'explicit': sorted(explicit),
-            'yields': sum(1 for p in paths if any(e.kind == 'yield' for e in p.events))}
+            'yields': sum(1 for p in paths if sum(1 for e in p.events if e.kind == 'yield') > nh)}
 
 
 _DOMCTX = None
@@ -117,10 +117,7 @@ def run(P, rep, tier):
     R = ReaderRoles(P)
     rep.analysed(*R.funcs)
     table = P.fold_module_const('pydiffx.sections', 'VALID_SECTION_STATES')
-    var, _ = allowed_var(R)
-    if var is None:
-        raise AnalysisError('allowed-set variable of the reader loop not identified')
-    loop = main_loop(R)
+    var, loop = None, None        # sections are analysed after real histories: no loop-state injection
     stubs = summary.stubs_for(P, summary.text_utils(P))
     global _CTX
     _CTX = (P, R, table, var, loop, stubs, (1,) if tier == 'quick' else (0, 1, 2))
